@@ -662,6 +662,8 @@ class Function(ValueNode):
     @func.setter
     def func(self, function_handle):
         self._func = function_handle
+        if not self._stale and not self._frozen:
+            self.notify_parents()
         self._stale = True
 
     @ValueNode.value.setter
